@@ -48,6 +48,18 @@ void cmp_runaway() {
     std::string lab = std::string(g_runaway.prefix) + "/runaway-operation";
     pbt::fatal(lab.c_str(), os.str()); // no unwinding through the container
 }
+void alloc_runaway() {
+    CmpBudget& g = cmp_budget();
+    const unsigned long long lim = g.alloc_limit;
+    g.alloc_limit = g.limit = ~0ull;
+    std::ostringstream os;
+    if (g_runaway.describe && g_runaway.self) os << g_runaway.describe(g_runaway.self);
+    os << "the container allocated more than " << lim
+       << " nodes inside this one operation (at least 8 times the number of elements involved, every node holds at least one): "
+          "the operation does not terminate, the std container answers at once";
+    std::string lab = std::string(g_runaway.prefix) + "/runaway-operation";
+    pbt::fatal(lab.c_str(), os.str());
+}
 
 namespace {
 
@@ -145,21 +157,28 @@ class History {
         while (x > 1) x >>= 1, ++r;
         return r;
     }
-    void arm(unsigned long long lim) {
+    //! `nodes` = upper bound of the nodes a correct implementation can allocate in the operation
+    void arm(unsigned long long lim, unsigned long long nodes) {
         CmpBudget& g = cmp_budget();
         g.calls = 0;
         g.limit = lim;
+        g.allocs = 0;
+        g.alloc_limit = 8ull * nodes + 1000ull;
     }
     //! `k` = number of keys the operation handles (entries of a run of equivalent keys count as keys)
     void arm_keys(unsigned long k) {
         unsigned long H = (unsigned long)std::max(s0.shape.height, s1.shape.height) + 3;
         unsigned long cap = (unsigned long)std::max(ci.leaf, ci.inner);
         unsigned long per = ci.binary ? 2ul * (ilog2(cap) + 3) : cap + 2;
-        arm(64ull * (k + 1) * H * per + 100000ull);
+        arm(64ull * (k + 1) * H * per + 100000ull, (k + 1) * H + 2 * (k + 1)); // <= one split per level and key (+ the nodes of a range-constructed tree)
     }
     //! whole-container operations (copy, assign, swap, clear, bulk_load, iteration, relational operators) need no
     //! key comparison at all; allow 64 per element anyway
-    void arm_bulk() { arm(64ull * (s0.obs.size() + s1.obs.size() + 1000)); }
+    //! (nodes: every node of a tree holds at least one element or separates two non-empty subtrees: < 2 per element)
+    void arm_bulk(size_t extra = 0) {
+        unsigned long long n = s0.obs.size() + s1.obs.size() + extra;
+        arm(64ull * (n + 1000), 2ull * n + 8);
+    }
     void arm_key(unsigned long k, int key) {
         have_arg_key = true, arg_key = key;
         arm_keys(k);
@@ -171,10 +190,14 @@ class History {
             if (pm > g.worst_permille) g.worst_permille = pm;
             if (pm >= 10) pbt::label("budget:used>=1%");
         }
-        g.limit = ~0ull;
+        g.limit = g.alloc_limit = ~0ull;
         have_arg_key = false;
     }
     size_t dups(int c, int k) { return WM ? S(c).m->count(k) : 0; }
+    //! labels of secondary interest are left out of the (already long) histogram of the scale target
+    void minor(const char* l) {
+        if (!SC) pbt::label(l);
+    }
 #define BT_CHECK(cond, sub, msgexpr) PBT_CHECK(cond, std::string(prefix) + "/" sub, hdr() << msgexpr)
 
     //! the order the container in slot c uses (C01: the std container's comparator; C02: the tree's own)
@@ -323,6 +346,8 @@ class History {
             if (n.level == 0) lf = std::max(lf, n.slotuse);
             else inf = std::max(inf, n.slotuse);
         }
+        // scale mode non-triviality: a node of one of the big capacities (>= 100 slots) has been filled beyond half
+        if ((ci.leaf >= 100 && lf > ci.leaf / 2) || (ci.inner >= 100 && inf > ci.inner / 2)) nt_flag = true;
         if (lf >= 256) pbt::label("scale:leaf_fill>=256");
         if (lf > 32768) pbt::label("scale:leaf_fill>32768");
         if (lf == 65535) pbt::label("scale:leaf_fill=65535");
@@ -522,7 +547,7 @@ class History {
                 if (have_ok) BT_CHECK(ok == mok, "insert-result", "returned bool " << ok << ", std container returned " << mok);
                 BT_CHECK(p.rank == er && p.value == mat, "insert-result",
                          "returned iterator at rank " << p.rank << " -> " << show(p.value) << ", std container's at rank " << er << " -> " << show(mat));
-                if (!mok) pbt::label("insert_existing_key");
+                if (!mok) minor("insert_existing_key");
             }
         }
         note_mutation(c, false, hb);
@@ -612,7 +637,7 @@ class History {
             size_t e = sl.m->erase_key(k);
             BT_CHECK(n == e, "erase-result", "erase(" << k << ") returned " << n << ", std container erased " << e);
         }
-        if (n > 1) pbt::label("erase_key_removes_many");
+        if (n > 1) minor("erase_key_removes_many");
         if (n) note_mutation(c, true, hb);
         finish(1 << c, OC_ERASE);
     }
@@ -685,7 +710,7 @@ class History {
             }
             sl.t->erase_cursor();
             recent_key = k;
-            pbt::label("erase_just_inserted");
+            minor("erase_just_inserted");
             note_mutation(c, true, sl.shape.height);
             finish(1 << c, OC_OTHER);
             return;
@@ -733,7 +758,7 @@ class History {
         if (WM) cnt = sl.m->count(k), lbr = sl.m->lower_rank(k);
         else
             for (const KD& e : sl.obs) cnt += equiv(c, e.first, k);
-        if (sep_changed_prev) pbt::label("lookup_after_separator_change");
+        if (sep_changed_prev) minor("lookup_after_separator_change");
         arm_key(2 + cnt, k);
         if (q == 0) {
             bool r = t.exists(k);
@@ -777,7 +802,7 @@ class History {
         static const char* names[6] = {"lower_bound(k)", "upper_bound(k)", "equal_range(k)", "lower_bound(k) const", "upper_bound(k) const", "equal_range(k) const"};
         opname = names[q];
         pbt::label("op:bounds");
-        if (sep_changed_prev) pbt::label("bound_after_separator_change");
+        if (sep_changed_prev) minor("bound_after_separator_change");
         PBT_LOG("#" << nsteps << " " << opname << " slot " << c << " k=" << k << "\n");
         size_t lbr = 0, ubr = 0;
         if (WM) lbr = sl.m->lower_rank(k), ubr = sl.m->upper_rank(k);
@@ -807,7 +832,7 @@ class History {
         const char* kindname = kn[kind];
         opname = "iterator walk";
         pbt::label("op:walk");
-        pbt::label(kind >= 2 ? "walk_reverse_iterator" : "walk_forward_iterator");
+        minor(kind >= 2 ? "walk_reverse_iterator" : "walk_forward_iterator");
         size_t pos = src.index(n + 1);
         unsigned steps = (unsigned)src.range(0, 12);
         auto at = [&](size_t i) { return kind >= 2 ? o[n - 1 - i] : o[i]; };
@@ -859,7 +884,7 @@ class History {
         sl.t->clear();
         if (WM) sl.m->clear();
         if (had) note_mutation(c, false, hb);
-        if (hb >= 2) pbt::label("clear_multi_level");
+        if (hb >= 2) minor("clear_multi_level");
         finish(1 << c, OC_OTHER);
     }
 
@@ -873,7 +898,7 @@ class History {
         S(j).t = std::move(n); // destroys the previous container of slot j
         if (WM && j != c) S(j).m.reset(S(c).m->clone());
         S(j).bulk_pending = false;
-        if (S(c).shape.height >= 2) pbt::label("copy_multi_level");
+        if (S(c).shape.height >= 2) minor("copy_multi_level");
         finish(3, OC_OTHER);
     }
 
@@ -882,7 +907,7 @@ class History {
         opname = (j == c) ? "operator= (self)" : "operator=";
         pbt::label(j == c ? "op:assign_self" : "op:assign");
         PBT_LOG("#" << nsteps << " slot " << j << " = slot " << c << " (sizes " << S(j).obs.size() << " <- " << S(c).obs.size() << ")\n");
-        if (j != c && S(j).shape.height >= 2) pbt::label("assign_over_multi_level");
+        if (j != c && S(j).shape.height >= 2) minor("assign_over_multi_level");
         arm_bulk();
         S(j).t->assign(*S(c).t);
         if (WM && j != c) S(j).m->assign(*S(c).m);
@@ -935,6 +960,8 @@ class History {
             if (!rep || ((i + 1) % (1 + (long)rep * 2)) == 0) ++cls; // runs of 3, 5, 7 entries per class
         }
         std::stable_sort(ks.begin(), ks.end(), [&](const KD& a, const KD& b) { return less(c, a.first, b.first); });
+        if (SC)
+            for (const KD& e : ks) U = std::max(U, e.first + 3); // the universe follows the loaded keys
     }
 
     //! scale mode: how many elements the next fill loads. `f` = wanted number of entries of the big node(s), drawn
@@ -1003,7 +1030,7 @@ class History {
         if (n == L * (I + 1) || n == L * (I + 1) * (I + 1)) pbt::label("bulk_exact_full_level");
         if (n > L) pbt::label("bulk_multi_leaf");
         PBT_LOG("#" << nsteps << " " << opname << " slot " << c << " n=" << n << " " << show(ks, ci.is_map()) << "\n");
-        arm_bulk();
+        arm_bulk(ks.size());
         sl.t->bulk_load(ks);
         if (WM) sl.m->append(ks);
         if (!ks.empty()) recent_key = ks[ks.size() / 2].first;
@@ -1034,8 +1061,8 @@ class History {
                          "slot" << i << " " << on[q] << " slot" << j << " = " << r[q] << " but the std containers give " << ms[q] << " (the element sequences give "
                                 << e[q] << ")\n  a: " << show(x, ci.is_map()) << "\n  b: " << show(y, ci.is_map()));
             }
-            if (eq && i != j && !x.empty()) pbt::label("relops_equal_nonempty");
-            if (!eq) pbt::label("relops_different");
+            if (eq && i != j && !x.empty()) minor("relops_equal_nonempty");
+            if (!eq) minor("relops_different");
         }
         finish(3, OC_OTHER, nullptr, false);
     }
@@ -1086,10 +1113,135 @@ class History {
     }
 
 public:
-    History(pbt::Source& s, const ConfigEntry& e, bool model)
-        : src(s), cfg(e), ci(e.info), WM(model), INV(!model), prefix(model ? "C01" : "C02") {}
+    History(pbt::Source& s, const ConfigEntry& e, bool model, bool scale = false)
+        : src(s), cfg(e), ci(e.info), WM(model), INV(!model), SC(scale), prefix(model ? "C01" : "C02") {
+        g_runaway.prefix = prefix;
+        g_runaway.describe = &History::describe_for_runaway;
+        g_runaway.self = this;
+        cmp_budget() = CmpBudget();
+    }
+    ~History() {
+        g_runaway.self = nullptr;
+        cmp_budget().limit = cmp_budget().alloc_limit = ~0ull;
+    }
+
+    // ----- scale mode: fill the big nodes first, then a modest, cost-bounded history ---------------------------
+    static constexpr long NBMAX = 270000; // hard bound on the elements of one fill (65536 leaves of 4 slots and a bit)
+
+    //! first fill of slot 0: bulk_load / insert(first,last) of an ascending range / range constructor
+    void scale_fill(unsigned method) {
+        const long cap = std::max(ci.leaf, ci.inner);
+        // element-by-element fills cost one in-node search per element: with the linear strategy that is O(n * slots)
+        if (method != 0 && !ci.binary && cap > 2000) method = 0;
+        if (method == 0) {
+            pbt::label("scale:fill_by_bulk_load");
+            op_bulk_load(0);
+            return;
+        }
+        Slot& sl = S(0);
+        long n = draw_scale_n(true);
+        std::vector<KD> ks;
+        sorted_keys(0, n, sc_rep, stride, ks);
+        if (method == 1) {
+            opname = "insert(first,last) of an ascending range";
+            pbt::label("scale:fill_by_ascending_inserts");
+            PBT_LOG("#" << nsteps << " " << opname << " slot 0 n=" << n << " " << show(ks, ci.is_map()) << "\n");
+            arm_keys(ks.size());
+            sl.t->insert_range(ks);
+            if (WM) sl.m->append(ks);
+        }
+        else {
+            opname = "Tree(first,last,cmp) of an ascending range";
+            pbt::label("scale:fill_by_range_constructor");
+            PBT_LOG("#" << nsteps << " " << opname << " slot 0 n=" << n << " " << show(ks, ci.is_map()) << "\n");
+            arm_keys(ks.size());
+            std::unique_ptr<ITree> t(sl.t->make(4, ks, shift, desc));
+            sl.t = std::move(t);
+            if (WM) sl.m->append(ks);
+        }
+        if (!ks.empty()) recent_key = ks[ks.size() / 2].first;
+        finish(1, OC_INSERT);
+    }
+
+    void run_scale() {
+        const long L = ci.leaf, I = ci.inner;
+        unsigned cs = (unsigned)src.index(6);
+        shift = ci.stateful() ? cs % 3 : 0;
+        desc = ci.stateful() ? (cs / 3) != 0 : false;
+        stride = 1 + (unsigned)src.index(3);
+        sc_rep = ci.multi() ? (unsigned)src.index(4) : 0;
+        unsigned method = (unsigned)src.weighted({5, 2, 1});
+        profile = (unsigned)src.index(3);
+        // which node kind do the fill sizes aim at? an inner node of I slots is half full with (I/2+1) leaves
+        const bool leaf_big = L >= 200, inner_ok = I >= 200 && (I / 2 + 1) * L <= NBMAX;
+        inner_dim = inner_ok && (!leaf_big || src.boolean());
+        NB = inner_dim ? std::min(NBMAX, (2 * I + 3) * L) : std::min(NBMAX, 2 * L + 2);
+        MAXSIZE = (size_t)NB + 64;
+        MAXOPS = 64;
+        MAXSTEPS = 160;
+        COSTMAX = 2000000ul + 10ul * (unsigned long)NB; // a handful of fully compared steps on the largest fill, dozens of queries
+        pbt::label(inner_dim ? "scale:aim_at_inner_node" : "scale:aim_at_leaf");
+        if (shift) pbt::label("coarse_equivalence");
+        if (ci.stateful() && desc) pbt::label("descending_state");
+        PBT_LOG("scale config " << ci.name << " shift=" << shift << " desc=" << desc << " stride=" << stride << " rep=" << sc_rep << " fill method=" << method
+                                << " aim=" << (inner_dim ? "inner" : "leaf") << " profile=" << profile << "\n");
+        for (int c = 0; c < 2; ++c) {
+            S(c).t.reset(cfg.create(shift, desc));
+            if (WM) S(c).m.reset(model_factory()(ci.kind, ci.cmp, shift, desc));
+        }
+        opname = "construct";
+        force_full = true;
+        finish(3, OC_OTHER);
+        force_full = false;
+        scale_fill(method);
+
+        // weights: insert, erase_one, erase_iter, insert_range, erase_sweep, erase_key, insert_hint, lookup, bounds, walk,
+        //          bulk_load, copy, assign, swap, construct, clear, relops
+        static const unsigned W[3][17] = {
+            {10, 6, 6, 3, 3, 3, 3, 40, 50, 8, 1, 1, 1, 1, 0, 0, 2},  // queries (cheap steps: many of them fit the cost bound)
+            {16, 14, 14, 6, 8, 6, 6, 14, 18, 4, 2, 2, 2, 2, 1, 1, 2}, // mutations around the node boundaries
+            {8, 6, 6, 3, 3, 2, 2, 12, 14, 4, 6, 8, 8, 6, 2, 2, 6},    // whole-container operations on big nodes
+        };
+        const unsigned* w = W[profile];
+        while (nops < MAXOPS && nsteps < MAXSTEPS && cost <= COSTMAX) {
+            if (src.exhausted()) break;
+            unsigned mb = src.u8();
+            if (mb == 0) break;
+            int c = (mb & 0xC0) == 0xC0 ? 1 : 0;
+            size_t op = src.weighted({w[0], w[1], w[2], w[3], w[4], w[5], w[6], w[7], w[8], w[9], w[10], w[11], w[12], w[13], w[14], w[15], w[16]});
+            sep_changed_prev = sep_changed;
+            ++nops;
+            dispatch(op, c);
+            // queries are not re-observed in scale mode, but walking to the returned position costs O(rank)
+            cost += S(c).obs.size() / 2 + 64;
+        }
+        end_of_history();
+    }
+
+    void dispatch(size_t op, int c) {
+        switch (op) {
+        case 0: op_insert(c, false); break;
+        case 1: op_erase_one(c); break;
+        case 2: op_erase_iter(c); break;
+        case 3: op_insert_range(c); break;
+        case 4: op_erase_sweep(c); break;
+        case 5: op_erase_key(c); break;
+        case 6: op_insert(c, true); break;
+        case 7: op_lookup(c); break;
+        case 8: op_bounds(c); break;
+        case 9: op_walk(c); break;
+        case 10: op_bulk_load(c); break;
+        case 11: op_copy(c); break;
+        case 12: op_assign(c); break;
+        case 13: op_swap(); break;
+        case 14: op_construct(c); break;
+        case 15: op_clear(c); break;
+        default: op_relops(); break;
+        }
+    }
 
     void run() {
+        if (SC) return run_scale();
         // header: universe, comparator state, operation profile, way to die (the configuration id was drawn by the caller)
         // (ordered so that the small byte values favoured by the driver already give very different universes)
         static const int UT[16] = {8, 64, 3, 24, 1, 256, 12, 96, 2, 32, 6, 128, 4, 16, 48, 512};
@@ -1129,25 +1281,7 @@ public:
             size_t op = src.weighted({w[0], w[1], w[2], w[3], w[4], w[5], w[6], w[7], w[8], w[9], w[10], w[11], w[12], w[13], w[14], w[15], w[16]});
             sep_changed_prev = sep_changed;
             ++nops;
-            switch (op) {
-            case 0: op_insert(c, false); break;
-            case 1: op_erase_one(c); break;
-            case 2: op_erase_iter(c); break;
-            case 3: op_insert_range(c); break;
-            case 4: op_erase_sweep(c); break;
-            case 5: op_erase_key(c); break;
-            case 6: op_insert(c, true); break;
-            case 7: op_lookup(c); break;
-            case 8: op_bounds(c); break;
-            case 9: op_walk(c); break;
-            case 10: op_bulk_load(c); break;
-            case 11: op_copy(c); break;
-            case 12: op_assign(c); break;
-            case 13: op_swap(); break;
-            case 14: op_construct(c); break;
-            case 15: op_clear(c); break;
-            default: op_relops(); break;
-            }
+            dispatch(op, c);
         }
         end_of_history();
     }
@@ -1186,6 +1320,41 @@ void run_property(pbt::Source& src, bool model) {
     if (e.info.tracked) pbt::label("elem:Tracked");
     if (e.info.raw) pbt::label("api:BTree_base_class");
     History h(src, e, model);
+    h.run();
+}
+
+static const char* scale_cap_class(int L, int I, bool leaf) {
+    int c = leaf ? L : I;
+    if (c > 32768) return leaf ? "cap:leaf>32768" : "cap:inner>32768";
+    if (c >= 1000) return leaf ? "cap:leaf>=1000" : "cap:inner>=1000";
+    if (c >= 255) return leaf ? "cap:leaf>=255" : "cap:inner>=255";
+    return leaf ? "cap:leaf_small" : "cap:inner_small";
+}
+
+void run_scale_property(pbt::Source& src) {
+    std::vector<ConfigEntry>& t = scale_table();
+    static bool sorted = false;
+    if (!sorted) {
+        std::sort(t.begin(), t.end(), [](const ConfigEntry& a, const ConfigEntry& b) { return a.info.id < b.info.id; });
+        sorted = true;
+    }
+    if (t.empty()) {
+        pbt::inconclusive();
+        return;
+    }
+    Ledger::get().reset();
+    AllocLedger::get().reset();
+    tlx::set_die_with_exception(true);
+    unsigned b = src.u8();
+    const ConfigEntry& e = t[((b * 37u) & 255u) % t.size()];
+    static const char* kl[4] = {"kind:set", "kind:multiset", "kind:map", "kind:multimap"};
+    static const char* cl[3] = {"cmp:less", "cmp:greater", "cmp:stateful"};
+    pbt::label(kl[e.info.kind]);
+    pbt::label(cl[e.info.cmp]);
+    pbt::label(e.info.binary ? "search:binary" : "search:linear");
+    pbt::label(scale_cap_class(e.info.leaf, e.info.inner, true));
+    pbt::label(scale_cap_class(e.info.leaf, e.info.inner, false));
+    History h(src, e, true, true);
     h.run();
 }
 
